@@ -35,7 +35,7 @@ func runC04(c *Ctx) {
 	impls := c.P.Implementations(storeI)
 	c04Entry(c, impls)
 	c04Total(c, impls)
-	c04Iteration(c, impls)
+	c04Iteration(c, impls, "C04-D3")
 	c04Extremes(c, impls)
 	c04Windows(c)
 	c04Shift(c, "C04-D6")
@@ -291,8 +291,7 @@ func c04Fold(c *Ctx, rule string, t *types.Named, adj *ssa.Function, cnt []strin
 	c.R.check(single, rule, tname+".adjust/single-bucket", shortFn(adj), c.fpos(adj), "when only one bucket remains it receives the whole cached total", "")
 }
 
-func c04Iteration(c *Ctx, impls []*types.Named) {
-	const rule = "C04-D3"
+func c04Iteration(c *Ctx, impls []*types.Named, rule string) {
 	seen := map[*ssa.Function]bool{}
 	n := 0
 	for _, t := range impls {
